@@ -218,6 +218,15 @@ def gen_cases(tier, seed):
         d = gdiff.gen_diff(r)
         cfg = gdiff.rand_cfg(r, color_only=False)
         cases.append(("random", d, cfg))
+    # `git log -p`: every file section may be preceded by a commit block, directly after the previous hunk's last line
+    # (concatenated `git show` outputs) or after a blank line
+    for i in range(n // 5):
+        r = vlib.case_rng(seed, PID, ("log", i))
+        d = gdiff.gen_diff(r, nsec=r.randint(2, 4), log=True)
+        for s_ in d["sections"][1:]:
+            if r.random() < 0.6:
+                s_["pre"] = ([""] if r.random() < 0.4 else []) + gdiff.gen_log_wrapper(r)
+        cases.append(("log", d, gdiff.rand_cfg(r, color_only=False)))
     # plain `diff -u` streams (no git headers), with removed / added lines that look like file header lines
     for i in range(n // 5):
         r = vlib.case_rng(seed, PID, ("diffu", i))
